@@ -128,14 +128,17 @@ Definition spec_device (M : key) (S U : tree) (p : path) : ans :=
       else answer (lwalk (Over (object_layers M "device" S) (mode_layers M (Some U))) p)
   end.
 
-(* device.kernelProperties(A) etc., K = the device's properties for that object *)
-Definition spec_with (M : key) (K : json) (A : json) (p : path) : ans :=
+(* a layer whose entries under the top-level key k are ignored *)
+Definition hide (k : key) (p : path) (w : wres) : wres :=
   match p with
-  | k :: _ =>
-      if String.eqb k "modes" then ANone
-      else answer (lwalk (Over (Sub K []) (mode_layers M A)) p)
-  | [] => answer (lwalk (Over (Sub K []) (mode_layers M A)) p)
+  | k' :: _ => if String.eqb k' k then Silent 0 else w
+  | [] => w
   end.
+
+(* device.kernelProperties(A) etc., K = the device's properties for that object: K overridden by
+   A's entries, themselves overridden by A/modes/<M>; A's "modes" entry itself is ignored *)
+Definition spec_with (M : key) (K : json) (A : json) (p : path) : ans :=
+  answer (combine (lwalk (Sub K []) p) (hide "modes" p (lwalk (mode_layers M A) p))).
 
 (* the device's mode: the enabled mode whose name equals props["mode"] up to case, else Serial *)
 Definition spec_mode (U : tree) : key := canon (mode_string (tget U ["mode"])).
@@ -156,3 +159,37 @@ Definition wf_setup (M : key) (S U : tree) : bool :=
 
 Definition wf_with (M : key) (A : json) : bool :=
   objnone A && objnone (match A with Some a => tget a ["modes"; M] | None => None end).
+
+(* ---- "anything under modes/<m'>" for another mode m', at any layer ---- *)
+Fixpoint prefixb (q p : path) : bool :=
+  match q with
+  | [] => true
+  | k :: q' => match p with
+               | k' :: p' => String.eqb k k' && prefixb q' p'
+               | [] => false
+               end
+  end.
+
+(* p lies under <pre>/modes/<m'> for one of the given prefixes *)
+Definition other_mode_path (m' : key) (pres : list path) (p : path) : bool :=
+  existsb (fun pre => prefixb (pre ++ ["modes"; m'])%list p) pres.
+
+(* where mode-specific entries are looked for: in user properties at the top level and inside
+   kernel/memory/stream ("device" is an ordinary key there); in the settings also inside device;
+   in additional properties at the top level *)
+Definition user_positions : list path := [[]; ["kernel"]; ["memory"]; ["stream"]].
+Definition settings_positions : list path := [[]; ["kernel"]; ["memory"]; ["stream"]; ["device"]].
+Definition additional_positions : list path := [[]].
+
+(* X and X' say the same about every path that is not under modes/<m'> *)
+Definition agree_off (m' : key) (pres : list path) (X X' : json) : Prop :=
+  forall p, other_mode_path m' pres p = false -> probe X p = probe X' p.
+
+(* ---- the layers of a layering, highest priority first ---- *)
+Fixpoint priority (l : lay) : list lay :=
+  match l with
+  | Sub _ _ => [l]
+  | Over lo hi => (priority hi ++ priority lo)%list
+  end.
+Definition silent (w : wres) : Prop := exists d, w = Silent d.
+Definition hit (w : wres) : Prop := w = HitObj \/ exists v, w = HitLeaf v.
